@@ -13,6 +13,18 @@ def _c09_extra(repo, reg, tier):
     return scan(repo, reg, tier)
 
 
+def _c18_extra(repo, reg, tier):
+    from contracts.lazy import bounded_extra
+
+    return bounded_extra(repo, reg, tier)
+
+
+def _c18_scan(repo, reg, tier):
+    from contracts.lazy import effect_scan
+
+    return effect_scan(repo, reg, tier)
+
+
 def _c01_extra(repo, reg, tier):
     from contracts.iteration import bounded_extra
 
@@ -50,6 +62,16 @@ PROPS: dict[str, dict] = {
                         "Engine.get_join_identity_payload/get_doomed_payload return payloads (true of the sql and iteration engines; the base-class default None is out of scope)",
                         "spec lemma: readiness of a tree is monotone in the payload heap (induction on the tree, not machine-checked)"],
         "explanation": "attach_payload contracts (write-once, rejected attach changes nothing, frame) + AST scan: no other payload write in the library; execute and _process_recursive never replace a payload",
+    },
+    "C18": {
+        "modules": ["lazy"],
+        # the other postconditions of execute (row content, payload caching) are C01 / C10
+        "only_clauses": {"iteration._engine:Engine.execute": ["a-lazy-tree-is-executed-without-starting-any-iteration"]},
+        "extra": [_c18_scan, _c18_extra],
+        "assumptions": ["constructing a generator-backed RowIterable and RowIterable.sliced start no iteration; to_mapping, materialized and the Sort arm's list() are the only iteration starts inside execute (class contracts / summary: assumed, bounded-checked)",
+                        "the ghost counter RowIterable.iterations is specification state: the real classes keep no such counter",
+                        "per-iteration clauses (single pass per full iteration, eager operations consume their input once at execute time, repeatable results) concern generator bodies outside the executor's subset: bounded stand-in replay/bounded_lazy.py only"],
+        "explanation": "Engine.execute proved arm by arm: on a tree of lazy operations the iteration counters and payload cells are left exactly as found",
     },
     "C17": {
         "modules": ["sqlsel"],
@@ -153,7 +175,7 @@ PROPS["C19"].update(
                "Uniqueness over every history and interleaving follows because no postcondition depends on the shared counter.",
     level_note=_COMMON_NOTE + "Assumed: uuid4 freshness (an assumed contract on an external function); schedules are not explored, the argument is independence from shared state.",
 )
-_LAWS = ("Law library spec/laws.py (algebra of filter/calc/proj/dedup/sort/slice/chain/join on row sequences): all 57 laws are machine-checked in Lean 4 over a concrete model "
+_LAWS = ("Law library spec/laws.py (algebra of filter/calc/proj/dedup/sort/slice/chain/join on row sequences): all 61 laws are machine-checked in Lean 4 over a concrete model "
          "(lean/RelAlg, compiled by MANIFEST.setup_cmd; statements transcribed by hand from the law table) and bounded-checked natively (spec/lawcheck.py); "
          "the evidence file lists any law whose Lean theorem did not compile in this installation as assumed; ")
 PROPS["C04"].update(
@@ -212,6 +234,12 @@ PROPS["C10"].update(
     level_note=_COMMON_NOTE + "Processor hooks and engine payload factories enter as assumed contracts. Known finding F13: a materialization behind a plain marker (every SQL materialization wraps a Select) never receives its payload, so its upstream is evaluated again by every process() call. "
                "One frame obligation of _process_recursive is covered by the bounded stand-in S-C07-frame-rebuilt-materialization (labelled bounded).",
 )
+PROPS["C18"].update(
+    level_text="iteration.Engine.execute is proved, arm by arm and by recursion, to start no iteration at all (ghost counters unchanged, no payload attached) on every tree made only of calculation, projection, selection, slice and chain over leaves, "
+               "payload-carrying or statically trivial subtrees and same-engine markers/transfers -- for all such trees. The remaining clauses (one pass over each leaf per full iteration, eager operations consume their input once at execute time, identical rows on repeated iteration) "
+               "are bounded-checked natively with counting leaf payloads (replay/bounded_lazy.py) and labelled bounded, not proved.",
+    level_note=_COMMON_NOTE + "Assumed: the iteration effects of the RowIterable class methods (constructors and sliced start none; to_mapping, materialized, list() may start any). Generator bodies (__iter__) are outside the executor's subset; their single-pass behaviour is bounded-checked only.",
+)
 PROPS["C17"].update(
     level_text="Select coherence is a class invariant (rows(select.target) == slice(dedup?(proj?(sort(rows(skip_to))))) with the recorded operations; peeling the recorded slice/deduplication/projection/sort nodes off select.target arrives at skip_to; is_compound iff skip_to is a Chain node; "
                "skip_to has no managed operation on top) proved at the only construction site, Select.apply_skip, for all arguments. sql.Engine.conform is proved idempotent (a Select is returned as the same object) and content-preserving (rows, columns, engine) by recursion on any well-formed tree; "
@@ -227,5 +255,13 @@ PROPS["C07"].update(
                "Bounded, not proved: the frame clause when a re-created materialization resolves to an existing node (stand-in S-C07-frame-rebuilt-materialization, replay/bounded_processor.py, 30000 random trees). Known finding F13 (persisted flag through plain markers). "
                "'Same-engine transfers' (destination == target engine; never built by Engine.transfer) are exempt from the never-gain clause.",
 )
-CLAIMED = {"C01", "C03", "C04", "C05", "C06", "C07", "C09", "C10", "C12", "C13", "C14", "C15", "C16", "C17", "C19", "C20"}
-NOT_CLAIMED: dict[str, str] = {}
+CLAIMED = {"C01", "C03", "C04", "C05", "C06", "C07", "C09", "C10", "C12", "C13", "C14", "C15", "C16", "C17", "C18", "C19", "C20"}
+_SQL_EMISSION = ("What contracts on this code can reach is proved elsewhere: the relational half (every commutation / merging / nesting rule of sql.Engine preserves the ordered rows of the applied operation sequence; "
+                 "slice and sort merging; order-loss guards) under C17, construction-time validity of accepted trees under C14/C17/C20. What remains is to_payload/_select_to_executable, SQLAlchemy and the database: a contract there needs an assumed denotation of "
+                 "SQLAlchemy's select/subquery/join/union/distinct/order_by/offset/limit (bag semantics, database-defined physical order) and of the database itself -- assumed contracts on external dependencies that would carry the whole claim, "
+                 "so nothing would be decided by the proof and a change to the emission code could not be seen; the dict-of-SQLAlchemy-column bookkeeping is also outside the verifier's Python subset. Translation validation on a live SQLite is a different technique family (DESIGN section 8).")
+NOT_CLAIMED: dict[str, str] = {
+    "C02": "SQL compilation vs. a real database: " + _SQL_EMISSION,
+    "C08": "'compiles and executes without an internal error / SQL the database rejects' is a statement about emitted SQL and a database (dialect rejections such as F17 are invisible to any contract on /repo): " + _SQL_EMISSION,
+    "C11": "the order in which a database returns rows (both physical scan orders): " + _SQL_EMISSION,
+}
